@@ -3461,6 +3461,9 @@ class InvReliability(Output):
                 # Compute frequencies
                 for i in range(len(edges) - 1):
                     q = (p >= edges[i]) & (p < edges[i + 1])
+                    if i == len(edges) - 2:
+                        # The last bin includes its upper edge
+                        q = q | (p == edges[i + 1])
                     I = np.where(q)[0]
                     if len(I) > 0:
                         n[f, i] = len(obs[I])
